@@ -1891,3 +1891,210 @@ Proof.
   - destruct (select (w_cur w) idx); [now destruct H|reflexivity].
   - now destruct H.
 Qed.
+
+(* ------------------------------------------------------------------------------------ *)
+(* what belongs to the caller (round 5): params objects, the header's point count, the VLR list *)
+(* ------------------------------------------------------------------------------------ *)
+Lemma set_vlrs_InvB s vl : InvB s -> InvB (set_vlrs s vl).
+Proof. intros [H1 H2 H3]. constructor; cbn [set_vlrs st_fmt st_extras st_recs]; assumption. Qed.
+
+(* the vlrs setter: whatever list is assigned — foreign extra-bytes VLRs, several, adjacent, duplicates, any order —,
+   (I3) holds at once, the other records of the assigned list stay in their order, nothing else changes *)
+Theorem assign_vlrs_inv s vl : InvB s ->
+  snd (assign_vlrs s vl) = Ok tt /\ Inv (fst (assign_vlrs s vl))
+  /\ st_fmt (fst (assign_vlrs s vl)) = st_fmt s /\ st_extras (fst (assign_vlrs s vl)) = st_extras s
+  /\ st_recs (fst (assign_vlrs s vl)) = st_recs s
+  /\ filter not_eb (st_vlrs (fst (assign_vlrs s vl))) = filter not_eb vl.
+Proof.
+  intros HB. unfold assign_vlrs. destruct (sync_inv (st_extras s) vl (inv_dims s HB)) as (vl' & -> & Hv & Hk).
+  cbn [fst snd]. split; [reflexivity|]. split; [split; [now apply set_vlrs_InvB|exact Hv]|].
+  cbn [set_vlrs st_fmt st_extras st_recs st_vlrs]. now repeat split.
+Qed.
+
+(* a list edited in place, then the next successful add / remove / conversion: (I3) holds again, the other records of
+   the caller's list are all there, in the caller's order *)
+Theorem edit_then_sync s vl o : InvB s -> op_okb (set_vlrs s vl) o = true -> op_syncs o = true ->
+  snd (step (set_vlrs s vl) o) = Ok tt ->
+  Inv (fst (step (set_vlrs s vl) o)) /\ filter not_eb (st_vlrs (fst (step (set_vlrs s vl) o))) = filter not_eb vl.
+Proof.
+  intros HB Hok Hs Hr. pose proof (set_vlrs_InvB s vl HB) as HB'.
+  destruct o as [ps|names|n vals|vals|ex0 recs0| |g stds|keep]; cbn [step op_syncs] in *; try discriminate.
+  - destruct (forallb edim_okb ps) eqn:E; [|rewrite add_refused in Hr by exact E; discriminate].
+    destruct (add_inv _ ps HB' Hok E) as (H1 & _ & _ & _ & _ & H6). now split.
+  - destruct (remove_okb (set_vlrs s vl) names) eqn:E; [|rewrite remove_refused in Hr by exact E; discriminate].
+    destruct (remove_inv _ names HB' E) as (H1 & _ & _ & _ & _ & H6). now split.
+  - destruct (convert_okb (set_vlrs s vl) g stds) eqn:E; [|destruct (convert_refused _ g stds E) as [_ H]; contradiction].
+    destruct (convert_inv _ g stds HB' Hok E) as (H1 & _ & _ & _ & _ & H6). now split.
+Qed.
+
+(* the base invariant alone is enough for the operations that synchronise or do not look at the VLR list *)
+Lemma step_invB s o : InvB s -> op_okb s o = true -> op_local o || op_syncs o = true ->
+  InvB (fst (step s o)) /\ (op_syncs o = true -> snd (step s o) = Ok tt -> Inv (fst (step s o))).
+Proof.
+  intros HB Hok Hk.
+  destruct o as [ps|names|n vals|vals|ex0 recs0| |g stds|keep]; cbn [step op_syncs op_local orb] in *; try discriminate.
+  - destruct (forallb edim_okb ps) eqn:E.
+    + destruct (add_inv s ps HB Hok E) as (H1 & _). split; [now apply Inv_B|now intros].
+    + rewrite add_refused by exact E. split; [exact HB|cbn; discriminate].
+  - destruct (remove_okb s names) eqn:E.
+    + destruct (remove_inv s names HB E) as (H1 & _). split; [now apply Inv_B|now intros].
+    + rewrite remove_refused by exact E. split; [exact HB|cbn; discriminate].
+  - destruct (assign_shape s n vals HB) as (recs' & -> & Hwf). split; [now apply InvB_recs|discriminate].
+  - destruct (assign_std_shape s vals HB) as (recs' & -> & Hwf). split; [now apply InvB_recs|discriminate].
+  - destruct (set_points_shape s ex0 recs0 HB) as (recs' & -> & Hwf). split; [now apply InvB_recs|discriminate].
+  - destruct (convert_okb s g stds) eqn:E.
+    + destruct (convert_inv s g stds HB Hok E) as (H1 & _). split; [now apply Inv_B|now intros].
+    + destruct (convert_refused s g stds E) as [-> H]. split; [exact HB|intros _ H'; contradiction].
+Qed.
+
+Lemma cworld_op_inv c o : CInv c -> cop_okb c (CW o) = true -> CInv (fst (cworld_op c o)).
+Proof.
+  destruct c as [w n d ps]. unfold CInv, cworld_op, cw_cur. cbn [cw_w cw_dirty cw_count cw_params fst].
+  intros [Hc Ho] Hok. destruct d.
+  - (* the VLR list is in the caller's hands *)
+    destruct o as [o|o|b idx|]; cbn [cop_okb cw_cur cw_w cw_dirty negb andb orb] in Hok;
+      try (rewrite andb_false_r in Hok; discriminate).
+    apply andb_true_iff in Hok as [Hok Hk]. cbn [wstep fst snd w_cur w_others wop_syncs].
+    destruct (step_invB (w_cur w) o Hc Hok Hk) as [HB HI].
+    split; [|exact Ho].
+    destruct (is_ok (snd (step (w_cur w) o)) && op_syncs o) eqn:E; [|exact HB].
+    apply andb_true_iff in E as [E1 E2]. apply Inv_2. apply HI; [exact E2|].
+    destruct (snd (step (w_cur w) o)) as [[]|e]; [reflexivity|discriminate].
+  - assert (wop_okb w o = true) as Hw.
+    { destruct o as [o|o|b idx|]; cbn [cop_okb cw_cur cw_w cw_dirty negb andb orb wop_okb] in *;
+        try reflexivity; now apply andb_true_iff in Hok as [Hok _]. }
+    destruct (wstep_inv w o (conj Hc Ho) Hw) as [Hc' Ho'].
+    split; [|exact Ho']. now destruct (is_ok _ && wop_syncs o).
+Qed.
+
+(* one step of the caller's history keeps the invariant of every live object *)
+Theorem cstep_inv c o : CInv c -> cop_okb c o = true -> CInv (fst (cstep c o)).
+Proof.
+  intros Hinv Hok. destruct o as [o|vl setter|n|idx cnt|d|i d|idx]; cbn [cstep].
+  - now apply cworld_op_inv.
+  - assert (InvB (cw_cur c)) as HB by (destruct Hinv as [Hc _]; destruct (cw_dirty c); [exact Hc|now apply Inv2_B]).
+    destruct Hinv as [_ Ho]. destruct setter.
+    + destruct (assign_vlrs_inv (cw_cur c) vl HB) as (Hr & HI & _).
+      destruct (assign_vlrs (cw_cur c) vl) as [s' [[]|e]]; cbn [fst snd] in *; [|discriminate].
+      split; cbn [cw_dirty cw_cur cw_w w_cur w_others]; [now apply Inv_2|exact Ho].
+    + split; cbn [fst cw_dirty cw_cur cw_w w_cur w_others]; [now apply set_vlrs_InvB|exact Ho].
+  - exact Hinv.
+  - cbn [cop_okb] in Hok. apply negb_true_iff in Hok. destruct Hinv as [Hc Ho]. rewrite Hok in Hc.
+    destruct (select (cw_cur c) idx) as [s'|e] eqn:E; cbn [fst]; [|split; [now rewrite Hok|exact Ho]].
+    destruct (select_ok _ _ _ E) as (_ & _ & _ & _ & H2 & _).
+    split; cbn [cw_dirty cw_cur cw_w w_cur w_others]; [rewrite Hok; now apply H2|now apply Forall_snoc].
+  - exact Hinv.
+  - exact Hinv.
+  - cbn [cop_okb] in Hok. destruct (pick_params (cw_params c) idx) as [ds|]; [|exact Hinv].
+    apply cworld_op_inv; [exact Hinv|]. cbn [cop_okb]. rewrite Hok. cbn [op_syncs]. now rewrite !orb_true_r.
+Qed.
+
+Lemma crun_cons c o ops : crun c (o :: ops) = crun (fst (cstep c o)) ops.
+Proof. reflexivity. Qed.
+
+(* after ANY history of the caller — adds, removes, assignments, round trips, selections, copies, with parameters the
+   caller keeps and changes, headers that count other points, VLR lists edited in place or assigned — every live LasData
+   satisfies its invariant; the current one the base part (record length = standard + extra bytes, names) always ... *)
+Theorem crun_inv ops : forall c, CInv c -> cops_okb c ops = true -> CInv (crun c ops).
+Proof.
+  induction ops as [|o ops IH]; intros c Hinv Hok; [exact Hinv|].
+  cbn [cops_okb] in Hok. apply andb_true_iff in Hok as [Ho Hr]. rewrite crun_cons. apply IH; [now apply cstep_inv|exact Hr].
+Qed.
+
+(* ... and the VLR part whenever the list is not in the caller's hands: in particular after the add / remove that follows
+   an in-place edit *)
+Theorem crun_inv2 ops c : CInv c -> cops_okb c ops = true -> cw_dirty (crun c ops) = false -> Inv2 (cw_cur (crun c ops)).
+Proof. intros Hinv Hok Hd. destruct (crun_inv ops c Hinv Hok) as [H _]. now rewrite Hd in H. Qed.
+
+Theorem cstep_sync_clean c o : is_ok (snd (cstep c (CW (WOp o)))) = true -> op_syncs o = true ->
+  cw_dirty (fst (cstep c (CW (WOp o)))) = false.
+Proof. cbn [cstep cworld_op fst snd cw_dirty wop_syncs]. intros -> ->. reflexivity. Qed.
+
+(* (2) no operation reads the header's point count: two histories that differ only in that counter — initially, or by
+   assignments to it along the way — have the same outcomes and end in the same world *)
+Definition same_but_count (a b : cworld) : Prop :=
+  cw_w a = cw_w b /\ cw_dirty a = cw_dirty b /\ cw_params a = cw_params b.
+
+Lemma cstep_count_irrelevant a b o : same_but_count a b ->
+  same_but_count (fst (cstep a o)) (fst (cstep b o)) /\ snd (cstep a o) = snd (cstep b o).
+Proof.
+  destruct a as [w n1 d ps], b as [w' n2 d' ps']. intros (Hw & Hd & Hp). cbn [cw_w cw_dirty cw_params] in *. subst w' d' ps'.
+  unfold same_but_count.
+  destruct o as [o|vl setter|n|idx cnt|p|i p|idx]; cbn [cstep]; unfold cworld_op, cw_cur; cbn [cw_w cw_dirty cw_params cw_count fst snd].
+  - now repeat split.
+  - destruct setter; [|now repeat split].
+    destruct (assign_vlrs (w_cur w) vl) as [s' [[]|e]]; cbn [fst snd cw_w cw_dirty cw_params]; now repeat split.
+  - now repeat split.
+  - destruct (select (w_cur w) idx); cbn [fst snd cw_w cw_dirty cw_params]; now repeat split.
+  - now repeat split.
+  - now repeat split.
+  - destruct (pick_params ps idx); cbn [cworld_op fst snd cw_w cw_dirty cw_params]; now repeat split.
+Qed.
+
+Theorem crun_count_irrelevant ops : forall a b, same_but_count a b -> same_but_count (crun a ops) (crun b ops).
+Proof.
+  induction ops as [|o ops IH]; intros a b H; [exact H|]. rewrite !crun_cons. apply IH. now apply cstep_count_irrelevant.
+Qed.
+
+Theorem crun_count_ops_erased ops : forall c, same_but_count (crun c ops) (crun c (filter (fun o => negb (is_count_op o)) ops)).
+Proof.
+  induction ops as [|o ops IH]; intros c; [now repeat split|].
+  cbn [filter]. destruct (is_count_op o) eqn:E; cbn [negb].
+  - destruct o; try discriminate. rewrite crun_cons. cbn [cstep fst].
+    destruct (IH c) as (H1 & H2 & H3).
+    destruct (crun_count_irrelevant ops {| cw_w := cw_w c; cw_count := n; cw_dirty := cw_dirty c; cw_params := cw_params c |} c) as (G1 & G2 & G3);
+      [now repeat split|].
+    unfold same_but_count. rewrite G1, G2, G3. now repeat split.
+  - rewrite !crun_cons. apply IH.
+Qed.
+
+(* after a successful add / remove / whole-record assignment the counter is the number of points *)
+Theorem cstep_count_refreshed c o : op_refreshes o = true -> is_ok (snd (cstep c (CW (WOp o)))) = true ->
+  cw_count (fst (cstep c (CW (WOp o)))) = len (st_recs (cw_cur (fst (cstep c (CW (WOp o)))))).
+Proof. cbn [cstep cworld_op fst snd cw_count cw_cur cw_w wop_refreshes]. intros -> ->. reflexivity. Qed.
+
+(* (1) what the caller does to its params objects reaches no live object; passing them is passing their values *)
+Theorem cstep_param_frame c o : is_param_write o = true ->
+  cw_w (fst (cstep c o)) = cw_w c /\ cw_count (fst (cstep c o)) = cw_count c /\ cw_dirty (fst (cstep c o)) = cw_dirty c.
+Proof. destruct o; try discriminate; intros _; now repeat split. Qed.
+
+Theorem cstep_add_params c idx ds : pick_params (cw_params c) idx = Some ds ->
+  cstep c (CAddParams idx) = cstep c (CW (WOp (Add ds))).
+Proof. intros H. cbn [cstep]. now rewrite H. Qed.
+
+Lemma pick_params_spec ps : forall idx ds, pick_params ps idx = Some ds -> Forall2 (fun i d => nth_error ps i = Some d) idx ds.
+Proof.
+  induction idx as [|i idx IH]; intros ds H; cbn [pick_params] in H.
+  - injection H as <-. constructor.
+  - destruct (nth_error ps i) as [d|] eqn:E; [|discriminate]. destruct (pick_params ps idx) as [ds'|]; [|discriminate].
+    injection H as <-. constructor; [exact E|now apply IH].
+Qed.
+
+(* (3) no step of the caller touches a LasData other than the current one *)
+Theorem cstep_others_kept c o : exists new, w_others (cw_w (fst (cstep c o))) = w_others (cw_w c) ++ new.
+Proof.
+  destruct o as [o|vl setter|n|idx cnt|p|i p|idx]; cbn [cstep cworld_op fst cw_w].
+  - apply wstep_others_kept.
+  - destruct setter; [destruct (assign_vlrs (cw_cur c) vl) as [s' [[]|e]]|]; cbn [fst cw_w w_others]; exists []; now rewrite app_nil_r.
+  - exists []. now rewrite app_nil_r.
+  - destruct (select (cw_cur c) idx); cbn [fst cw_w w_others]; [now eexists|exists []; now rewrite app_nil_r].
+  - exists []. now rewrite app_nil_r.
+  - exists []. now rewrite app_nil_r.
+  - destruct (pick_params (cw_params c) idx); cbn [cworld_op fst cw_w]; [apply wstep_others_kept|exists []; now rewrite app_nil_r].
+Qed.
+
+Theorem crun_others_kept ops : forall c, exists new, w_others (cw_w (crun c ops)) = w_others (cw_w c) ++ new.
+Proof.
+  induction ops as [|o ops IH]; intros c; [exists []; cbn; now rewrite app_nil_r|].
+  rewrite crun_cons. destruct (IH (fst (cstep c o))) as [n2 H2]. destruct (cstep_others_kept c o) as [n1 H1].
+  exists (n1 ++ n2). now rewrite H2, H1, app_assoc.
+Qed.
+
+(* a caller's history made of world operations only is the world's history *)
+Theorem crun_plain ops : forall c, cw_w (crun c (map CW ops)) = wrun (cw_w c) ops.
+Proof.
+  induction ops as [|o ops IH]; intros c; [reflexivity|]. cbn [map]. rewrite crun_cons, IH. reflexivity.
+Qed.
+
+Theorem WInv_CInv w n ps : WInv w -> CInv (mkCW w n false ps).
+Proof. intros [H1 H2]. now split. Qed.
